@@ -329,3 +329,84 @@ func VH_ReassemblerNilStream() {
 	r, err := NewReassembler(int(vU8("mif")), time.Duration(vI64("timeout")), nil)
 	vAssert(err != nil && r == nil, "C19/created-without-stream")
 }
+
+// ---- C01 through Push(typ, raw): the convenience entry point ------------------------------------
+
+func init() { vEntries["VH_ReassemblerPush"] = VH_ReassemblerPush }
+
+type vPushMon struct {
+	texts     []string // raw text of every accepted non-EOE push, in push order
+	seqs      []uint32
+	delivered []int
+	mixed     bool
+	unknown   bool
+	disorder  bool
+}
+
+func (m *vPushMon) ReassemblyComplete(g []*auparse.AuditMessage) {
+	last := -1
+	for _, x := range g {
+		if x.Sequence != g[0].Sequence {
+			m.mixed = true
+		}
+		found := -1
+		for i, t := range m.texts {
+			if t == x.RawData && m.seqs[i] == x.Sequence {
+				found = i
+			}
+		}
+		if found < 0 {
+			m.unknown = true
+			continue
+		}
+		m.delivered[found]++
+		if found < last {
+			m.disorder = true
+		}
+		last = found
+	}
+}
+
+func (m *vPushMon) EventsLost(int) {}
+
+// VH_ReassemblerPush: k records go in through Push (record type symbolic, well-formed text with a
+// sequence from a small set and a body unique to the push), then Close. Every record whose Push
+// returned nil and that is not an EOE comes out exactly once, grouped and in push order.
+func VH_ReassemblerPush() {
+	k := vParam("k", 3)
+	m := &vPushMon{}
+	r, err := NewReassembler(vParam("maxInFlight", 2), 1000000*time.Hour, m)
+	if err != nil {
+		return
+	}
+	for i := 0; i < k; i++ {
+		typ := vU16("typ")
+		seq := uint32(5 + vChoose("seq", 2))
+		text := "audit(1490137971.011:" + string([]byte{'0' + byte(seq)}) + "): n=" + string([]byte{'a' + byte(i)})
+		// logged before the call: a completing record is delivered from inside Push
+		isEOE := typ == uint16(auparse.AUDIT_EOE)
+		if !isEOE {
+			m.texts = append(m.texts, text)
+			m.seqs = append(m.seqs, seq)
+			m.delivered = append(m.delivered, 0)
+		}
+		err := r.Push(auparse.AuditMessageType(typ), []byte(text))
+		vAssert(err == nil, "C01/well-formed-record-rejected-by-push")
+		if err != nil && !isEOE {
+			m.seqs[len(m.seqs)-1] = 0 // rejected: must never show up
+			m.delivered[len(m.delivered)-1] = -1000
+		}
+	}
+	r.Close()
+	for i := range m.texts {
+		if m.delivered[i] < 0 {
+			vAssert(m.delivered[i] == -1000, "C01/delivered-something-not-pushed")
+			continue
+		}
+		vAssert(m.delivered[i] >= 1, "C01/pushed-through-Push-but-never-delivered")
+		vAssert(m.delivered[i] <= 1, "C01/delivered-twice")
+	}
+	vAssert(!m.mixed, "C01/mixed-sequence-in-group")
+	vAssert(!m.unknown, "C01/delivered-something-not-pushed")
+	vAssert(!m.disorder, "C01/group-is-not-exactly-the-pushed-records-in-order")
+}
